@@ -202,66 +202,91 @@ func verifHelperClient(fault string, log *verifHelperLog) int {
 	return 0
 }
 
-// faults: none | failstart:<code> | garbage (answers the runner with garbage)
+// faults: none[:<lingerMs>] | failstart:<code> | garbage[:<lingerMs>]
+// With a sequencer the wrapper also reports Started (after it has read the runner's request, so the
+// instance is known), Up, Stop (SIGTERM received) and Gone (last thing before the process ends);
+// lingerMs makes the process take that long to end after SIGTERM (a server draining connections).
 func verifHelperServer(fault string, log *verifHelperLog) int {
 	parts := strings.Split(fault, ":")
-	switch parts[0] {
-	case "failstart":
-		code := 1
-		if len(parts) > 1 {
-			code, _ = strconv.Atoi(parts[1])
+	arg := func(i, def int) int {
+		if len(parts) > i {
+			if n, err := strconv.Atoi(parts[i]); err == nil {
+				return n
+			}
 		}
-		log.put(map[string]any{"ev": "exit", "code": code})
-		return code
-	case "garbage":
-		_, _ = io.Copy(io.Discard, os.Stdin)
-		log.put(map[string]any{"ev": "garbage"})
-		_, _ = os.Stdout.Write([]byte{0, 0, 0, 3, 0xff, 0xff, 0xff})
-		return 0
+		return def
 	}
-	log.put(map[string]any{"ev": "start"})
-	ctx, cancel := context.WithCancel(context.Background())
-	defer cancel()
-	var err error
+	pid := os.Getpid()
 	if log.seq == nil {
-		err = referenceserver.Run(ctx, []string{"referenceserver"}, os.Stdin, os.Stdout, os.Stderr)
-	} else {
-		// read the runner's request ourselves (to know the instance), hand it to the real server,
-		// intercept the server's answer to learn the address, announce Up, then forward the answer
-		var req conformancev1.ServerCompatRequest
-		if rerr := internal.ReadDelimitedMessage(os.Stdin, &req, "runner", 1<<62, 64*1024*1024); rerr != nil {
+		switch parts[0] {
+		case "failstart":
+			log.put(map[string]any{"ev": "exit", "code": arg(1, 1)})
+			return arg(1, 1)
+		case "garbage":
+			_, _ = io.Copy(io.Discard, os.Stdin)
+			log.put(map[string]any{"ev": "garbage"})
+			_, _ = os.Stdout.Write([]byte{0, 0, 0, 3, 0xff, 0xff, 0xff})
+			return 0
+		}
+		log.put(map[string]any{"ev": "start"})
+		err := referenceserver.Run(context.Background(), []string{"referenceserver"}, os.Stdin, os.Stdout, os.Stderr)
+		if err != nil {
+			log.put(map[string]any{"ev": "exit", "code": 1, "err": err.Error()})
 			return 1
 		}
-		inR, inW := io.Pipe()
-		outR, outW := io.Pipe()
-		go func() {
-			_ = internal.WriteDelimitedMessage(inW, &req)
-			_ = inW.Close()
-		}()
-		sigs := make(chan os.Signal, 1)
-		signal.Notify(sigs, syscall.SIGTERM, syscall.SIGINT)
-		var addr int
-		go func() {
-			var resp conformancev1.ServerCompatResponse
-			if rerr := internal.ReadDelimitedMessage(outR, &resp, "refserver", 1<<62, 64*1024*1024); rerr != nil {
-				return
-			}
-			addr = int(resp.Port)
-			log.emit(map[string]any{"e": "Up", "addr": addr, "cert": fmt.Sprintf("%x", sha256.Sum256(resp.PemCert))[:12],
-				"inst": verifInst(int(req.Protocol), int(req.HttpVersion), req.UseTls, len(req.ClientTlsCert) > 0)})
-			_ = internal.WriteDelimitedMessage(os.Stdout, &resp)
-			<-sigs
-			log.emit(map[string]any{"e": "Stop", "addr": addr})
-			cancel()
-		}()
-		err = referenceserver.Run(ctx, []string{"referenceserver", "-bind", "127.0.0.1"}, inR, outW, os.Stderr)
+		log.put(map[string]any{"ev": "exit", "code": 0})
+		return 0
 	}
-	if err != nil {
-		log.put(map[string]any{"ev": "exit", "code": 1, "err": err.Error()})
+	// sequencer mode
+	sigs := make(chan os.Signal, 1)
+	signal.Notify(sigs, syscall.SIGTERM, syscall.SIGINT)
+	var req conformancev1.ServerCompatRequest
+	if rerr := internal.ReadDelimitedMessage(os.Stdin, &req, "runner", 1<<62, 64*1024*1024); rerr != nil {
 		return 1
 	}
-	log.put(map[string]any{"ev": "exit", "code": 0})
-	return 0
+	inst := verifInst(int(req.Protocol), int(req.HttpVersion), req.UseTls, len(req.ClientTlsCert) > 0)
+	log.emit(map[string]any{"e": "Started", "inst": inst, "pid": pid})
+	gone := func(code int) int {
+		log.emit(map[string]any{"e": "Gone", "pid": pid})
+		return code
+	}
+	switch parts[0] {
+	case "failstart":
+		return gone(arg(1, 1))
+	case "garbage":
+		_, _ = os.Stdout.Write([]byte{0, 0, 0, 3, 0xff, 0xff, 0xff})
+		<-sigs
+		log.emit(map[string]any{"e": "Stop", "pid": pid, "addr": 0})
+		time.Sleep(time.Duration(arg(1, 0)) * time.Millisecond)
+		return gone(0)
+	}
+	ctx, cancel := context.WithCancel(context.Background())
+	defer cancel()
+	inR, inW := io.Pipe()
+	outR, outW := io.Pipe()
+	go func() {
+		_ = internal.WriteDelimitedMessage(inW, &req)
+		_ = inW.Close()
+	}()
+	go func() {
+		var resp conformancev1.ServerCompatResponse
+		if rerr := internal.ReadDelimitedMessage(outR, &resp, "refserver", 1<<62, 64*1024*1024); rerr != nil {
+			return
+		}
+		addr := int(resp.Port)
+		log.emit(map[string]any{"e": "Up", "addr": addr, "pid": pid, "cert": fmt.Sprintf("%x", sha256.Sum256(resp.PemCert))[:12], "inst": inst})
+		_ = internal.WriteDelimitedMessage(os.Stdout, &resp)
+		<-sigs
+		log.emit(map[string]any{"e": "Stop", "pid": pid, "addr": addr})
+		cancel()
+	}()
+	err := referenceserver.Run(ctx, []string{"referenceserver", "-bind", "127.0.0.1"}, inR, outW, os.Stderr)
+	time.Sleep(time.Duration(arg(1, 0)) * time.Millisecond)
+	if err != nil {
+		log.put(map[string]any{"ev": "exit", "code": 1, "err": err.Error()})
+		return gone(1)
+	}
+	return gone(0)
 }
 
 func verifInst(protocol, version int, tls, cert bool) string {
